@@ -66,8 +66,9 @@ type Op struct {
 }
 
 type Call struct {
-	Now int64 `json:"now"` // ns after the limiter's creation
-	N   int32 `json:"n"`
+	Now    int64     `json:"now"` // ns after the limiter's creation
+	N      int32     `json:"n"`
+	Resize *[2]int32 `json:"resize,omitempty"` // instead of an AllowN: Resize(qps, burst) on the flow control
 }
 
 type Case struct {
@@ -358,15 +359,44 @@ func runSeq(c *rig.Ctx, cs Case, record bool) runResult {
 	w := newWorld()
 	t0 := time.Now()
 	var observations []obs
+	epochs := map[string]*tbEpoch{}
+	prevSnap := []FCSnap{}
 	for i, op := range cs.Ops {
+		tBefore := time.Now()
 		reply, pm := w.exec(op)
+		tAfter := time.Now()
 		if pm != "" {
 			return fail("judge", "c08.panic", fmt.Sprintf("op %d (%s) panicked: %s", i, op.K, pm), nil, nil)
 		}
 		if s, ok := reply.(string); ok && strings.HasPrefix(s, "error:") {
 			return fail("diff", "c08.acquire-error", fmt.Sprintf("op %d: DoAcquire failed: %s", i, s), s, nil)
 		}
-		observations = append(observations, obs{Reply: reply, Snap: w.snapshot()})
+		snap := w.snapshot()
+		observations = append(observations, obs{Reply: reply, Snap: snap})
+		// token-rate judge in real time (one-sided): Σ grants of a bucket over any window in which its (qps, burst)
+		// do not really change is at most burst + qps*T, whatever re-syncs / same-value Resizes fall in between
+		if rs, ok := reply.([]acqReply); ok && op.K == "acq" {
+			for k, r := range rs {
+				if k >= len(op.Reqs) || !r.Accept || r.Err != "" || r.Limit <= 0 {
+					continue
+				}
+				if ep := epochs[op.Reqs[k].FC]; ep != nil {
+					ep.grants = append(ep.grants, grantEv{tBefore, tAfter, int64(r.Limit)})
+					if msg := ep.check(); msg != "" {
+						res.features["tb-window-spans-resync"] = true
+						return fail("judge", "c08.tokens-rate", fmt.Sprintf("after op %d %s: token bucket %q (qps=%d burst=%d, parameters unchanged since op %d, %d re-syncs/Resizes to the same values in between): %s",
+							i, rig.Canon(op), rig.UnHex(op.Reqs[k].FC), ep.qps, ep.burst, ep.startOp, ep.sameResizes, msg), observations, nil)
+					}
+				}
+			}
+		}
+		updateEpochs(epochs, op, i, prevSnap, snap, tBefore)
+		for _, ep := range epochs {
+			if ep.sameResizes > 0 && len(ep.grants) > 0 {
+				res.features["tb-window-spans-resync"] = true
+			}
+		}
+		prevSnap = snap
 		if j, d := w.quiescentCheck(); j != "" {
 			return fail("judge", "c08.total", fmt.Sprintf("after op %d (%s): %s", i, rig.Canon(op), j), observations, nil)
 		} else if d != "" {
@@ -461,6 +491,101 @@ func runSeq(c *rig.Ctx, cs Case, record bool) runResult {
 	return res
 }
 
+type grantEv struct {
+	before, after time.Time
+	n             int64
+}
+
+// tbEpoch: a stretch of a seq case during which one token bucket keeps its identity and its (qps, burst)
+type tbEpoch struct {
+	qps, burst  int32
+	startOp     int
+	sameResizes int // Resize / re-sync events that left (qps, burst) as they were
+	grants      []grantEv
+}
+
+// check looks at every window that ends with the latest grant.
+func (e *tbEpoch) check() string {
+	if len(e.grants) == 0 {
+		return ""
+	}
+	last := e.grants[len(e.grants)-1]
+	var sum int64
+	for i := len(e.grants) - 1; i >= 0; i-- {
+		sum += e.grants[i].n
+		T := last.after.Sub(e.grants[i].before).Seconds()
+		bound := float64(e.burst) + float64(e.qps)*T
+		if float64(sum) > bound+0.5+bound*0.002 {
+			return fmt.Sprintf("%d tokens granted within %.6f s, bound burst + qps*T = %.3f", sum, T, bound)
+		}
+	}
+	return ""
+}
+
+// updateEpochs: a bucket's window is reset only when the bucket is (re)created, changes type, or its qps/burst
+// really change (decided from the op itself, not from what the code did).
+func updateEpochs(epochs map[string]*tbEpoch, op Op, opIdx int, before, after []FCSnap, t time.Time) {
+	prev := map[string]FCSnap{}
+	for _, f := range before {
+		prev[f.Name] = f
+	}
+	seen := map[string]bool{}
+	for _, f := range after {
+		if f.T != "tb" {
+			continue
+		}
+		seen[f.Name] = true
+		pf, had := prev[f.Name]
+		ep := epochs[f.Name]
+		reset, touched := false, false
+		if !had || pf.T != "tb" || ep == nil {
+			reset = true
+		} else {
+			switch op.K {
+			case "resize":
+				if op.FC == f.Name {
+					touched = true
+					if op.N != pf.QPS || op.Burst != pf.Burst {
+						reset = true
+					}
+				}
+			case "sync":
+				typ, q, b := "tb", pf.QPS, pf.Burst
+				for _, sc := range op.Schemas {
+					if sc.Name != f.Name || (sc.Mif == nil && sc.Tb == nil) {
+						continue
+					}
+					touched = true
+					if sc.Mif != nil {
+						if typ != "mif" {
+							reset = true
+						}
+						typ = "mif"
+					} else {
+						if typ != "tb" || sc.Tb[0] != q || sc.Tb[1] != b {
+							reset = true
+						}
+						typ, q, b = "tb", sc.Tb[0], sc.Tb[1]
+					}
+				}
+			}
+			if f.QPS != ep.qps || f.Burst != ep.burst {
+				reset = true
+			}
+		}
+		if reset {
+			epochs[f.Name] = &tbEpoch{qps: f.QPS, burst: f.Burst, startOp: opIdx}
+		} else if touched {
+			ep.sameResizes++
+		}
+	}
+	for n := range epochs {
+		if !seen[n] {
+			delete(epochs, n)
+		}
+	}
+}
+
 func noteSet(f map[string]bool, cur int32, accept bool, latest int32, err string) {
 	switch {
 	case cur < 0:
@@ -500,6 +625,12 @@ func runBucket(c *rig.Ctx, cs Case, record bool) bool {
 	base := time.Now()
 	oks := []bool{}
 	for _, call := range cs.Calls {
+		if call.Resize != nil {
+			// what a re-sync of the cluster's spec does to this schema (ResizeGlobalFlowControl)
+			oks = append(oks, fc.Resize(call.Resize[0], call.Resize[1]))
+			lim = flowcontrol.VerifC08Limiter(fc)
+			continue
+		}
 		oks = append(oks, lim.AllowN(base.Add(time.Duration(call.Now)), int(call.N)))
 	}
 	var m struct {
@@ -511,14 +642,16 @@ func runBucket(c *rig.Ctx, cs Case, record bool) bool {
 	if err := c.Model("C08.bucket", map[string]interface{}{"qps": cs.QPS, "burst": cs.Burst, "calls": cs.Calls, "impl": oks}, &m); err != nil {
 		return fail("diff", "c08.model-error", "model error: "+err.Error(), nil, nil)
 	}
-	monotone := true
-	for i := 1; i < len(cs.Calls); i++ {
-		if cs.Calls[i].Now < cs.Calls[i-1].Now {
+	monotone, nonneg := true, true
+	var lastNow int64 = -1 << 62
+	for _, call := range cs.Calls {
+		if call.Resize != nil {
+			continue
+		}
+		if call.Now < lastNow {
 			monotone = false
 		}
-	}
-	nonneg := true
-	for _, call := range cs.Calls {
+		lastNow = call.Now
 		if call.N < 0 {
 			nonneg = false
 		}
